@@ -25,7 +25,7 @@ KINDS_T = ("Z", "V", "short", "open", "I", "LV")
 
 
 def budget_s(tier):
-    return 300 if tier == "quick" else 3600
+    return 300 if tier == "quick" else 7200
 
 
 # (n, b, kinds, depth, min_shorts, orient_mode)
@@ -42,13 +42,13 @@ LEVELS_THOROUGH = [
     (2, 1, KINDS_T, 3, 0),
     (2, 2, KINDS_T, 3, 0),
     (2, 3, KINDS_T, 2, 0),
-    (3, 2, KINDS_T, 3, 0),
-    (3, 3, KINDS_T, 2, 0),
+    (3, 2, KINDS_T, 2, 0),
+    (3, 3, ("Z", "V", "short", "open", "I"), 2, 0),
     (3, 4, ("Z", "V", "short", "open"), 1, 0),
-    (4, 3, ("Z", "V", "short", "I"), 2, 1),
+    (4, 3, ("Z", "V", "short", "I"), 1, 1),
     (4, 4, ("Z", "V", "short"), 1, 2),
     (4, 5, ("Z", "V", "short"), 1, 3),
-    (5, 5, ("Z", "V", "short"), 1, 3),
+    (5, 5, ("Z", "V", "short"), 1, 4),
 ]
 
 
